@@ -1,9 +1,11 @@
 (* C04 -- pressure step: Young-Laplace equations with a zero-sum least-squares solution.  Statements only.
    The turning estimate is proved zero on collinear points, invariant under translation and uniform scaling, and odd under reversal
-   of the storage direction (over the reals).  PARTIAL: the 3% clause, least-squares optimality of the bordered normal equations and on the
-   0.9 correlation are evaluated by the oracle (harness/props/c04.py), not proved. *)
-From Coq Require Import Reals ZArith QArith List Bool.
-From Forsys Require Import Model.Num Model.PyList Model.PressureSys Proofs.PressureProofs Proofs.CurvatureProofs.
+   of the storage direction (over the reals).  The solve is proved too: a solution of the bordered normal equations is the least-squares solution among the zero-sum
+   vectors, and when the interfaces link all cells into one connected group it is the only solution of that system.
+   PARTIAL: the 3% clause and the 0.9 correlation are evaluated by the oracle (harness/props/c04.py), not proved; that numpy's inverse
+   solves the bordered system is checked numerically against an independent least-squares solve. *)
+From Coq Require Import Reals ZArith QArith List Bool Lia Lra.
+From Forsys Require Import Model.Num Model.PyList Model.Cert Model.PressureSys Proofs.CertProofs Proofs.PressureProofs Proofs.CurvatureProofs Proofs.PressureLSProofs.
 Import ListNotations.
 
 (* every equation has exactly one +1 and one -1, at the columns of the interface's two cells *)
@@ -67,6 +69,50 @@ Proof. vm_compute. reflexivity. Qed.
 Example C04_reinsert_example : reinsert_zeros 0%Q 5 [0; 2]%nat [(7 # 1); (8 # 1); (9 # 1)]%Q = [0; (7 # 1); 0; (8 # 1); (9 # 1)]%Q.
 Proof. vm_compute. reflexivity. Qed.
 
+(* ---- the solve (general_matrix.py:76-102): [[A^T A, 1], [1^T, 0]] (p, mu) = (A^T r, 0) *)
+(* a solution of the bordered normal equations is a least-squares solution among the vectors that sum to zero *)
+Theorem C04_bordered_solution_is_zero_sum_least_squares : forall n (A : list (list R)) (r p q : list R) (mu : R),
+  rows_ok n A -> length r = length A -> length p = n -> length q = n ->
+  stationary n A r p mu -> vsum ROps p = 0%R -> vsum ROps q = 0%R ->
+  (sqn ROps (vsub ROps (mv ROps A p) r) <= sqn ROps (vsub ROps (mv ROps A q) r))%R.
+Proof. exact zero_sum_normal_equations_minimise. Qed.
+(* the row of an interface between two different cells is a difference row: s at one cell, -s at the other, zero elsewhere *)
+Theorem C04_row_is_a_difference : forall keys c1 c2 sign1 r p1 p2,
+  get_row keys [c1; c2] sign1 = Some r -> position_of c1 keys = Some p1 -> position_of c2 keys = Some p2 -> p1 <> p2 ->
+  diff_row (length keys) (map IZR r) p1 p2 (IZR (if (0 <? sign1)%Z then 1%Z else (-1)%Z)).
+Proof. exact get_row_is_diff_row. Qed.
+(* when the interfaces link every cell to the first one, the equations together with the zero-sum condition determine the pressures *)
+Theorem C04_connected_tissue_determines_pressures : forall n A edges,
+  diff_matrix n A edges -> (forall i, (i < n)%nat -> linked edges 0%nat i) -> zero_sum_injective n A.
+Proof. exact connected_zero_sum_injective. Qed.
+Theorem C04_bordered_system_has_one_solution : forall n (A : list (list R)) (r p p' : list R) (mu mu' : R),
+  rows_ok n A -> length r = length A -> length p = n -> length p' = n -> zero_sum_injective n A ->
+  stationary n A r p mu -> vsum ROps p = 0%R -> stationary n A r p' mu' -> vsum ROps p' = 0%R -> p = p'.
+Proof. exact bordered_system_unique. Qed.
+(* together: on a connected tissue the reported pressures are THE least-squares solution that sums to zero *)
+Theorem C04_connected_pressures_are_the_zero_sum_least_squares : forall n A edges (r p : list R) (mu : R),
+  rows_ok n A -> diff_matrix n A edges -> (forall i, (i < n)%nat -> linked edges 0%nat i) ->
+  length r = length A -> length p = n -> stationary n A r p mu -> vsum ROps p = 0%R ->
+  (forall q, length q = n -> vsum ROps q = 0%R -> (sqn ROps (vsub ROps (mv ROps A p) r) <= sqn ROps (vsub ROps (mv ROps A q) r))%R) /\
+  (forall p' mu', length p' = n -> stationary n A r p' mu' -> vsum ROps p' = 0%R -> p' = p).
+Proof. exact connected_pressures_are_the_zero_sum_least_squares. Qed.
+
+(* three cells in a row, two interfaces, jumps 1 and 2: the hypotheses are met by p = (4/3, 1/3, -5/3), mu = 0 *)
+Example C04_three_cells_in_a_row :
+  let A := [[1; -1; 0]; [0; 1; -1]]%R in let edges := [(0, 1); (1, 2)]%nat in
+  rows_ok 3 A /\ diff_matrix 3 A edges /\ (forall i, (i < 3)%nat -> linked edges 0%nat i) /\
+  stationary 3 A [1; 2]%R [4/3; 1/3; -5/3]%R 0%R /\ vsum ROps [4/3; 1/3; -5/3]%R = 0%R.
+Proof. cbv zeta. split; [repeat constructor|]. split.
+  - constructor; [exists 1%R|constructor; [exists 1%R|constructor]]; unfold diff_row; cbn [fst snd length nth];
+      (repeat split; try lia; try lra; intros [|[|[|k]]] H1 H2; cbn [nth]; try lia; try reflexivity; destruct k; reflexivity).
+  - split; [|split].
+    + intros [|[|[|i]]] Hi; try lia.
+      * apply lk_refl.
+      * apply (lk_step _ 0%nat 1%nat 1%nat); [left; left; reflexivity|apply lk_refl].
+      * apply (lk_step _ 0%nat 1%nat 2%nat); [left; left; reflexivity|]. apply (lk_step _ 1%nat 2%nat 2%nat); [left; right; left; reflexivity|apply lk_refl].
+    + unfold stationary, ones. cbn. f_equal; [lra|f_equal; [lra|f_equal; lra]].
+    + cbn. lra. Qed.
+
 Print Assumptions C04_row_shape.
 Print Assumptions C04_row_orientation.
 Print Assumptions C04_reinsert_zeros_spec.
@@ -76,3 +122,8 @@ Print Assumptions C04_turning_zero_on_straight.
 Print Assumptions C04_turning_similarity_invariant.
 Print Assumptions C04_turning_odd_under_reversal.
 Print Assumptions C04_equation_direction_independent.
+Print Assumptions C04_bordered_solution_is_zero_sum_least_squares.
+Print Assumptions C04_row_is_a_difference.
+Print Assumptions C04_connected_tissue_determines_pressures.
+Print Assumptions C04_bordered_system_has_one_solution.
+Print Assumptions C04_connected_pressures_are_the_zero_sum_least_squares.
